@@ -320,12 +320,17 @@ func tpObserve(tree []tpNode, list bool, stopK, failAt int) J {
 		}
 		if !evaluable {
 			obs["eval"] = J{"log": []int{}, "failed": false, "skip": true}
+			obs["eval2"] = J{"log": []int{}, "failed": false}
 			return
 		}
 		rec = &tpRec{failAt: failAt}
 		root, _ = tpBuild(tree, rec)
 		_, eerr := parsley.EvaluateNode(nil, root)
 		obs["eval"] = J{"log": nz(rec.log), "failed": eerr != nil, "skip": false}
+		// a second evaluation of the same node objects, no failure this time
+		rec.log, rec.failAt = nil, 0
+		_, eerr2 := parsley.EvaluateNode(nil, root)
+		obs["eval2"] = J{"log": nz(rec.log), "failed": eerr2 != nil}
 	})
 	if m != "" {
 		obs["panic"] = m
@@ -340,6 +345,7 @@ func treepassMain(mode string, a args) {
 			FailAt    int `json:"failAt"`
 			Check     J   `json:"check"`
 			Check2    J   `json:"check2"`
+			Eval2     J   `json:"eval2"`
 			Api       J   `json:"api"`
 			Transform J   `json:"transform"`
 			Eval      J   `json:"eval"`
@@ -387,6 +393,7 @@ func treepassMain(mode string, a args) {
 				cmp(fmt.Sprintf("second StaticCheck over the same nodes after failAt=%d", p.FailAt), o["check2"], p.Check2)
 				cmp(fmt.Sprintf("Transform failAt=%d", p.FailAt), o["transform"], p.Transform)
 				cmp(fmt.Sprintf("Evaluate failAt=%d", p.FailAt), o["eval"], p.Eval)
+				cmp(fmt.Sprintf("second Evaluate over the same nodes after failAt=%d", p.FailAt), o["eval2"], p.Eval2)
 				cmp(fmt.Sprintf("Parse with transformation+static check, failAt=%d", p.FailAt), o["api"], p.Api)
 			}
 			if len(samples) < 3 && cases%307 == 11 {
